@@ -14,6 +14,7 @@ def PullRes.isNeed : PullRes → Bool
 theorem doProc_stash (p : Parser) : (doProc p).1.stash = [] := rfl
 theorem doProc_buf (p : Parser) : (doProc p).1.buf = p.buf := rfl
 theorem doProc_bix (p : Parser) : (doProc p).1.bix = p.bix := rfl
+theorem doProc_skip (p : Parser) : (doProc p).1.skip = p.skip := rfl
 
 theorem procRes_fst (x : Parser × PRes) : (procRes x).1 = x.1 := by
   unfold procRes; rcases x with ⟨q, r⟩; cases r <;> rfl
@@ -21,42 +22,120 @@ theorem procRes_fst (x : Parser × PRes) : (procRes x).1 = x.1 := by
 theorem procRes_not_need (x : Parser × PRes) : (procRes x).2 ≠ some .need := by
   unfold procRes; rcases x with ⟨q, r⟩; cases r <;> simp
 
-theorem stashRest_buf (p : Parser) (s : Bool) : (stashRest p s).1.buf = p.buf := by
-  unfold stashRest; dsimp only
+theorem procStep_buf (p : Parser) : (procStep p).1.buf = p.buf := by
+  unfold procStep
+  split
+  · rfl
+  · split
+    · rw [procRes_fst, doProc_buf]
+    · rfl
+
+theorem procStep_bix (p : Parser) : (procStep p).1.bix = p.bix := by
+  unfold procStep
+  split
+  · rfl
+  · split
+    · rw [procRes_fst, doProc_bix]
+    · rfl
+
+theorem procStep_eolp (p : Parser) : (procStep p).1.eolp = p.eolp := by
+  unfold procStep
+  split
+  · rfl
+  · split
+    · rw [procRes_fst]; rfl
+    · rfl
+
+theorem procStep_not_need (p : Parser) : (procStep p).2 ≠ some .need := by
+  unfold procStep
+  split
+  · simp
+  · split
+    · exact procRes_not_need _
+    · simp
+
+theorem procStep_stash_lt (p : Parser) (h : p.stash.length < stashSize) :
+    (procStep p).1.stash.length < stashSize := by
+  unfold procStep
+  split
+  · simp [stashSize]
+  · split
+    · rw [procRes_fst, doProc_stash]; simp [stashSize]
+    · exact h
+
+theorem copyRest_buf (p : Parser) : (copyRest p).buf = p.buf := by
+  unfold copyRest
   split
   · rfl
   · split <;> rfl
 
-/-- the buffer is used up (`BI = p->bsz`) unless the over-long rest was dropped -/
-theorem stashRest_bix (p : Parser) (s : Bool) :
-    (stashRest p s).1.bix = p.bix ∨ (stashRest p s).1.bix = p.buf.length := by
-  unfold stashRest; dsimp only
+theorem copyRest_eolp (p : Parser) : (copyRest p).eolp = p.eolp := by
+  unfold copyRest
   split
-  · exact Or.inl rfl
-  · split <;> exact Or.inr rfl
+  · rfl
+  · split <;> rfl
 
-theorem stashRest_stash_lt (p : Parser) (s : Bool) (h : p.stash.length < stashSize) :
-    (stashRest p s).1.stash.length < stashSize := by
-  unfold stashRest; dsimp only
+theorem copyRest_log (p : Parser) : (copyRest p).log = p.log := by
+  unfold copyRest
   split
-  · simp [stashSize]
+  · rfl
+  · split <;> rfl
+
+theorem copyRest_comp (p : Parser) : (copyRest p).comp = p.comp := by
+  unfold copyRest
+  split
+  · rfl
+  · split <;> rfl
+
+theorem copyRest_stash_lt (p : Parser) (h : p.stash.length < stashSize) :
+    (copyRest p).stash.length < stashSize := by
+  unfold copyRest
+  split
+  · exact h
   · split
     · rename_i o ho
       have := esccpy_some_lt (stashSize - p.stash.length) _ o _ (by omega) (Prod.ext ho rfl)
       simp; omega
-    · exact h
+    · simp [stashSize]
+
+theorem stashRest_buf (p : Parser) (s : Bool) : (stashRest p s).1.buf = p.buf := copyRest_buf p
+
+/-- the buffer is used up (`BI = p->bsz`) -/
+theorem stashRest_bix (p : Parser) (s : Bool) : (stashRest p s).1.bix = p.buf.length := by
+  show (copyRest p).buf.length = _; rw [copyRest_buf]
+
+theorem stashRest_stash_lt (p : Parser) (s : Bool) (h : p.stash.length < stashSize) :
+    (stashRest p s).1.stash.length < stashSize := copyRest_stash_lt p h
 
 theorem takeLine_buf (p : Parser) (e : Nat) : (takeLine p e).buf = p.buf := by
-  unfold takeLine; split <;> rfl
+  unfold takeLine
+  split
+  · rfl
+  · split <;> rfl
 
 theorem takeLine_bix (p : Parser) (e : Nat) : (takeLine p e).bix = p.bix + e := by
-  unfold takeLine; split <;> rfl
-
-theorem takeLine_sentinel (p : Parser) (e : Nat) : (takeLine p e).sentinel = 0 := by
-  unfold takeLine; split <;> rfl
+  unfold takeLine
+  split
+  · rfl
+  · split <;> rfl
 
 theorem takeLine_eolp (p : Parser) (e : Nat) : (takeLine p e).eolp = p.eolp := by
-  unfold takeLine; split <;> rfl
+  unfold takeLine
+  split
+  · rfl
+  · split <;> rfl
+
+theorem takeLine_comp (p : Parser) (e : Nat) : (takeLine p e).comp = p.comp := by
+  unfold takeLine
+  split
+  · rfl
+  · split <;> rfl
+
+theorem takeLine_log (p : Parser) (e : Nat) : (takeLine p e).log = p.log := by
+  unfold takeLine
+  split
+  · rfl
+  · split <;> rfl
 
 theorem doProc_eolp (p : Parser) : (doProc p).1.eolp = p.eolp := rfl
 
@@ -64,15 +143,20 @@ theorem takeLine_stash_lt (p : Parser) (e : Nat) (h : p.stash.length < stashSize
     (takeLine p e).stash.length < stashSize := by
   unfold takeLine
   split
-  · rename_i o ho
-    have := esccpy_some_lt (stashSize - p.stash.length) _ o _ (by omega) (Prod.ext ho rfl)
-    simp; omega
   · exact h
+  · split
+    · rename_i o ho
+      have := esccpy_some_lt (stashSize - p.stash.length) _ o _ (by omega) (Prod.ext ho rfl)
+      simp; omega
+    · exact h
 
 theorem preChop_buf (p : Parser) : (preChop p).buf = p.buf := by
   unfold preChop; split <;> rfl
 
 theorem preChop_stash (p : Parser) : (preChop p).stash = p.stash := by
+  unfold preChop; split <;> rfl
+
+theorem preChop_skip (p : Parser) : (preChop p).skip = p.skip := by
   unfold preChop; split <;> rfl
 
 theorem preChop_eolp (p : Parser) : (preChop p).eolp = false := by
@@ -90,17 +174,12 @@ theorem chopR_buf (p : Parser) : (chopR p).1.buf = p.buf := by
   · exact stashRest_buf p false
   · split
     · exact stashRest_buf p true
-    · dsimp only
-      split
-      · rw [procRes_fst, doProc_buf, takeLine_buf]
-      · exact takeLine_buf p _
+    · rw [procStep_buf, takeLine_buf]
 
 theorem round_buf (p : Parser) : (round p).1.buf = p.buf := by
   unfold round
   split
-  · split
-    · rw [procRes_fst, doProc_buf]; rfl
-    · rfl
+  · rw [procStep_buf]; rfl
   · rw [chopR_buf, preChop_buf]
 
 theorem chopR_stash_lt (p : Parser) (h : p.stash.length < stashSize) :
@@ -110,18 +189,13 @@ theorem chopR_stash_lt (p : Parser) (h : p.stash.length < stashSize) :
   · exact stashRest_stash_lt p false h
   · split
     · exact stashRest_stash_lt p true h
-    · dsimp only
-      split
-      · rw [procRes_fst, doProc_stash]; simp [stashSize]
-      · exact takeLine_stash_lt p _ h
+    · exact procStep_stash_lt _ (takeLine_stash_lt p _ h)
 
 theorem round_stash_lt (p : Parser) (h : p.stash.length < stashSize) :
     (round p).1.stash.length < stashSize := by
   unfold round
   split
-  · split
-    · rw [procRes_fst, doProc_stash]; simp [stashSize]
-    · exact h
+  · exact procStep_stash_lt _ h
   · exact chopR_stash_lt _ (by rw [preChop_stash]; exact h)
 
 theorem mu_unmarked (p : Parser) (h : p.eolp = false) : mu p = p.buf.length - p.bix := by
@@ -146,24 +220,17 @@ theorem chopR_mu (p : Parser) (hu : p.eolp = false) (h : (chopR p).2 ≠ some .n
       simp only [ge_iff_le, List.length_drop, Nat.not_le] at hlt
       simp only [ge_iff_le, List.length_drop]
       rw [if_neg (by omega)]
-      dsimp only at h ⊢
-      split
-      · rw [procRes_fst, mu_unmarked _ (by rw [doProc_eolp, takeLine_eolp]; exact hu), doProc_buf, doProc_bix,
-          takeLine_buf, takeLine_bix]
-        omega
-      · rw [mu_unmarked _ (by rw [takeLine_eolp]; exact hu), takeLine_buf, takeLine_bix]
-        omega
+      rw [mu_unmarked _ (by rw [procStep_eolp, takeLine_eolp]; exact hu), procStep_buf, procStep_bix,
+        takeLine_buf, takeLine_bix]
+      omega
 
 theorem round_mu (p : Parser) (h : (round p).2 ≠ some .need) : mu (round p).1 < mu p := by
   unfold round at h ⊢
   split
   · rename_i hc
     have hmu : mu p = p.buf.length - p.bix + 1 := by unfold mu; rw [if_pos hc.1]
-    split
-    · rw [procRes_fst, mu_unmarked _ (by rw [doProc_eolp]; rfl), doProc_buf, doProc_bix, hmu]
-      show p.buf.length - p.bix < _; omega
-    · rw [mu_unmarked _ rfl, hmu]
-      show p.buf.length - p.bix < _; omega
+    rw [mu_unmarked _ (by rw [procStep_eolp]; rfl), procStep_buf, procStep_bix, hmu]
+    show p.buf.length - p.bix < _; omega
   · rename_i hc
     rw [if_neg hc] at h
     have := chopR_mu _ (preChop_eolp p) h
